@@ -217,3 +217,8 @@ pub fn take_panics() -> Vec<String> {
         Err(_) => vec![],
     }
 }
+
+/// the first `n` characters of a text (never splits a character)
+pub fn cut(s: &str, n: usize) -> String {
+    s.chars().take(n).collect()
+}
